@@ -237,6 +237,15 @@ func runWorker(bin string, req *core.Request, tmp string, tag string, timeout ti
 	return res
 }
 
+func contains(l []string, x string) bool {
+	for _, y := range l {
+		if y == x {
+			return true
+		}
+	}
+	return false
+}
+
 func tail(s string, n int) string {
 	if len(s) <= n {
 		return s
@@ -319,7 +328,17 @@ func (a *agg) add(prop string, r *core.RunRecord) {
 		a.samples = append(a.samples, o.Sample)
 	}
 	if len(r.Real) > 0 {
-		a.real, a.stub = r.Real, r.Stub
+		// (union: a property decided by two engines lists both engines' components)
+		for _, x := range r.Real {
+			if !contains(a.real, x) {
+				a.real = append(a.real, x)
+			}
+		}
+		for _, x := range r.Stub {
+			if !contains(a.stub, x) {
+				a.stub = append(a.stub, x)
+			}
+		}
 	}
 	for _, n := range o.Notes {
 		a.notes[n]++
@@ -419,6 +438,21 @@ func runCheck(id, tier string) int {
 		fmt.Fprintf(os.Stderr, "HARNESS: %v\n", err)
 		return 2
 	}
+	bins := map[string]string{p.Engine: bin}
+	if p.AlsoEngine != "" {
+		bin2, err := buildEngine(p.AlsoEngine, p.Race)
+		if err != nil {
+			fmt.Fprintf(os.Stderr, "HARNESS: %v\n", err)
+			return 2
+		}
+		bins[p.AlsoEngine] = bin2
+	}
+	binFor := func(lo, batch int) string {
+		if p.AlsoEngine != "" && p.AlsoEvery > 0 && (lo/batch)%p.AlsoEvery == p.AlsoEvery-1 {
+			return bins[p.AlsoEngine]
+		}
+		return bin
+	}
 	buildS := time.Since(t0).Seconds()
 	b := p.Quick
 	if tier == "thorough" {
@@ -479,7 +513,7 @@ func runCheck(id, tier string) int {
 				if perRun <= 0 {
 					perRun = 60
 				}
-				res := runWorker(bin, req, tmp, fmt.Sprintf("%d-%d", w, bn), time.Duration(perRun*(hi-lo))*time.Second+30*time.Second, 1)
+				res := runWorker(binFor(lo, batch), req, tmp, fmt.Sprintf("%d-%d", w, bn), time.Duration(perRun*(hi-lo))*time.Second+30*time.Second, 1)
 				mu.Lock()
 				for i := range res.recs {
 					r := &res.recs[i]
@@ -539,7 +573,11 @@ func runCheck(id, tier string) int {
 			continue
 		}
 		nviol++
-		path, herr := minimiseAndWrite(bin, p, vr, tmp)
+		vbin := bin
+		if vr.plan != nil && bins[vr.plan.Engine] != "" {
+			vbin = bins[vr.plan.Engine]
+		}
+		path, herr := minimiseAndWrite(vbin, p, vr, tmp)
 		if herr != nil {
 			fmt.Fprintf(os.Stderr, "HARNESS: %v\n", herr)
 			return 2
@@ -676,7 +714,11 @@ func minimiseAndWrite(bin string, p *Prop, vr *violRec, tmp string) (string, err
 			viol = &out.Violations[i]
 		}
 	}
-	rf := &ReplayFile{Property: p.ID, Engine: p.Engine, Race: p.Race, Signature: vr.v.Signature, Oracle: vr.v.Oracle, Message: viol.Message, LogHash: hashes[0],
+	engine := p.Engine
+	if small.Engine != "" {
+		engine = small.Engine
+	}
+	rf := &ReplayFile{Property: p.ID, Engine: engine, Race: p.Race, Signature: vr.v.Signature, Oracle: vr.v.Oracle, Message: viol.Message, LogHash: hashes[0],
 		Original: len(vr.plan.Steps), Minimised: len(small.Steps), Execs: execs, Plan: small, Violation: viol, Log: out.Log}
 	if len(rf.Log) > 400 {
 		rf.Log = rf.Log[len(rf.Log)-400:]
